@@ -4,6 +4,7 @@ CONSTANTS
  MaxCloses = 2
  MaxOps = 0
  KeyMode = "literal"
+ LockRefTgt = TRUE
  Eager = FALSE
 SPECIFICATION Spec
 INVARIANTS TypeOK LocksNonNeg LocksExact MarkIsReach
